@@ -21,6 +21,9 @@ pub enum MergeKind {
     Sum,
     /// Injective length-prefixed encoding of (key, values): NOT lone preserving.
     Inject,
+    /// Depends on the key: byte-wise minimum for keys with an even byte sum, maximum otherwise
+    /// (associative, commutative, lone preserving).
+    KeyedMinMax,
 }
 
 impl MergeKind {
@@ -36,6 +39,7 @@ impl MergeKind {
             MergeKind::Max => "max",
             MergeKind::Sum => "wrapping-sum",
             MergeKind::Inject => "inject",
+            MergeKind::KeyedMinMax => "min-or-max-by-key",
         }
     }
     /// Pure reference evaluation.
@@ -46,6 +50,14 @@ impl MergeKind {
             MergeKind::Last => values[values.len() - 1].clone(),
             MergeKind::Min => values.iter().min().unwrap().clone(),
             MergeKind::Max => values.iter().max().unwrap().clone(),
+            MergeKind::KeyedMinMax => {
+                let even = key.iter().fold(0u32, |a, b| a + *b as u32) % 2 == 0;
+                if even {
+                    values.iter().min().unwrap().clone()
+                } else {
+                    values.iter().max().unwrap().clone()
+                }
+            }
             MergeKind::Sum => {
                 if values.len() == 1 {
                     return values[0].clone();
